@@ -30,9 +30,11 @@ from ..core import Ctx, load_corpus
 
 ID = "C19"
 LEVEL = "proof"
-ENGINES = ["lean-model", "kopfsim"]
+ENGINES = ["lean-model", "kopfsim", "pyextract"]
 TIE = ("S: real infinite_watch vs the Lean world machine, act by act, on seeded fault scripts; "
-       "A: real adjust_tasks vs the Lean ensemble on insight histories; whole-operator runs checked by the oracle")
+       "A: real adjust_tasks vs the Lean ensemble on insight histories; T: AST check that orchestrator() awaits adjust_tasks "
+       "inside `async with insights.revised` (re-proved equal to the model's locked variant); whole-operator runs, incl. "
+       "rapid namespace/CRD changes during a suspended pass, checked by the oracle")
 LEVEL_TEXT = (
     "Lean theorems for ALL adversary scripts (changes, deliveries, bookmarks, EOF/connection/timeouts, in-stream 410, "
     "HTTP 410, 429/other request failures, unknown ERROR, garbage, compaction, pause/resume timing) over a model of "
@@ -42,12 +44,17 @@ LEVEL_TEXT = (
     "unknown_error_raises, failed_is_final, paused_silent, fresh_list_on_resume; and for ALL insight histories: "
     "adjust_keys (one-step characterisation), watchers_nodup, kept_tasks_kept, exactly_one_watch_partial (guard: a "
     "namespace is served or no cluster-scoped resource; fixed operator mode; stable scope) with "
-    "exactly_one_watch_lingering_witness. The models are hand-written and tied to the code by correspondence runs.")
+    "exactly_one_watch_lingering_witness; and for ALL interleavings of observer revisions with the orchestrator's segments "
+    "around the condition insights.revised: revise_wakes, pass_progress, no_lost_wakeup, exactly_one_watch_async_partial, with "
+    "unlocked_pass_loses_wakeup_witness for the variant that releases the lock before the pass. The models are hand-written and tied to the code by correspondence runs.")
 THEOREMS = [("Kopf.Props.C19", "Kopf.C19." + n) for n in [
     "no_skip_inv", "no_skip", "deliver_in_order", "resume_point", "relist_on_410",
     "relist_covers_everything", "respond_never_fails", "unknown_error_raises", "failed_is_final",
     "paused_silent", "pause_noticed_is_quiet", "fresh_list_on_resume", "outs_is_ghost", "adjust_keys", "watchers_nodup", "kept_tasks_kept",
-    "exactly_one_watch_partial", "exactly_one_watch_lingering_witness"]]
+    "exactly_one_watch_partial", "exactly_one_watch_lingering_witness",
+    "revise_wakes", "pass_progress", "no_lost_wakeup", "exactly_one_watch_async_partial",
+    "unlocked_pass_loses_wakeup_witness"]]
+TIE_THEOREMS = [("Kopf.Tie.C19", "Kopf.C19.Tie.pass_under_lock")]
 RULE = ("stream scripts: 0-2 pre-existing objects, cluster-wide or namespaced watch, 3-10 moments at dyadic times, each a "
         "cluster of 1-3 ops in random order from {create/edit/delete/other-resource write, break eof/conn/410/error/garbage, "
         "bookmark, unknown-type line, compact, HTTP-410 mode, request fault (429+Retry-After/500/403/404/conn/timeout × count) "
@@ -64,6 +71,42 @@ ASSUMPTIONS = ["resource versions are modelled as naturals (Kubernetes: opaque s
                "peering absent (standalone or peering CRD not in the backbone)"]
 
 # C19-F1 was repaired in kopf e006454; the signature stays so that a regression is reported as a VIOLATION
+def extract(ctx: Ctx) -> None:
+    """AST check of `orchestration.orchestrator`: where is the `adjust_tasks` pass relative to the lock of
+    `insights.revised`? → Kopf/Extracted/C19.lean (`lockedPass`), proved `= true` in Kopf/Tie/C19.lean."""
+    import ast
+    from .. import pyextract
+    from ..core import ExtractError
+    tree = pyextract.parse_file(ctx.repo / "kopf/_core/reactor/orchestration.py")
+    fn = pyextract.find_def(tree, "orchestrator")
+
+    def is_await_of(node: ast.AST, text: str) -> bool:
+        return isinstance(node, ast.Await) and isinstance(node.value, ast.Call) and pyextract.norm(node.value.func) == text
+
+    passes = [n for n in ast.walk(fn) if is_await_of(n, "adjust_tasks")]
+    waits = [n for n in ast.walk(fn) if is_await_of(n, "insights.revised.wait")]
+    withs = [n for n in ast.walk(fn) if isinstance(n, ast.AsyncWith)
+             and any(pyextract.norm(i.context_expr) == "insights.revised" for i in n.items)]
+    if len(passes) != 1 or len(waits) != 1 or len(withs) != 1:
+        raise ExtractError(f"orchestrator(): expected one `async with insights.revised`, one `await insights.revised.wait()` and "
+                           f"one `await adjust_tasks(...)`; found {len(withs)}, {len(waits)}, {len(passes)}")
+    block = withs[0]
+    inside = lambda n: any(n is d for st in block.body for d in ast.walk(st))  # noqa: E731
+    if not inside(waits[0]):
+        raise ExtractError("orchestrator(): `insights.revised.wait()` is awaited outside `async with insights.revised`")
+    loops = [n for n in ast.walk(fn) if isinstance(n, ast.While) and any(waits[0] is d for d in ast.walk(n))]
+    if not loops or not any(passes[0] is d for d in ast.walk(loops[-1])):
+        raise ExtractError("orchestrator(): `adjust_tasks` is not in the loop that waits on `insights.revised`")
+    if passes[0].lineno <= waits[0].lineno:
+        raise ExtractError("orchestrator(): `adjust_tasks` does not follow `insights.revised.wait()`")
+    locked = inside(passes[0])
+    out = pyextract.HEADER.format(src="kopf/_core/reactor/orchestration.py")
+    out += "namespace Kopf.C19.Extracted\n\n"
+    out += "/-- `await adjust_tasks(...)` sits inside the `async with insights.revised` block of `orchestrator()` -/\n"
+    out += f"def lockedPass : Bool := {'true' if locked else 'false'}\n\nend Kopf.C19.Extracted\n"
+    leanio.write_generated("Kopf/Extracted/C19.lean", out)
+
+
 F1_SIG = {"site": "watching.continuous_watch", "shape": "HTTP 410 on the watch request is not treated as too-old: no re-list"}
 F2_SIG = {"site": "api.request", "shape": "retry attempts of a list/watch request begun before the pause are re-sent while paused"}
 F3_SIG = {"site": "orchestration.terminate_redundancies", "shape": "cluster-scoped watcher survives the removal of the last served namespace"}
@@ -587,6 +630,35 @@ def gen_operator(rng: random.Random, seed: int) -> dict:
             "initial_resources": init_res, "initial_namespaces": init_ns, "timeline": tl, "end": t + 3.0}
 
 
+def gen_rapid(rng: random.Random, seed: int) -> dict:
+    """2-3 namespace/CRD changes 0-0.5 s apart (also in the same instant) while a handler of a namespace that
+    is being removed is still in flight: `terminate_redundancies` suspends in `aiotasks.stop()` for up to
+    `queueing.exit_timeout`, and the next revisions of the insights arrive during that `adjust_tasks` pass."""
+    clusterwide = rng.random() < 0.15
+    handlers = ["kopfexamples"] + [p for p in ["widgets", "clusterthings"] if rng.random() < 0.4]
+    init_res = ["kopfexamples"] + [p for p in ["widgets", "clusterthings"] if rng.random() < 0.5]
+    init_ns = ["team-a"] + [n for n in ["team-b", "team-c", "other"] if rng.random() < 0.5]
+    sleep = rng.choice([0.5, 1.0, 1.0, 1.5, 2.5])
+    tl: list[list] = [[1.0, "create", "kopfexamples", "team-a", "x"], [3.0, "check"]]
+    t = 4.0
+    tl.append([t, "edit", "kopfexamples", "team-a", "x"])          # the handler starts and stays in flight
+    t += rng.choice([1 / 64, 0.125, 0.25])
+    first = ["del_ns", "team-a"] if rng.random() < 0.8 else ["del_res", "kopfexamples"]
+    tl.append([t] + first)
+    for _ in range(rng.choice([1, 2, 2, 3])):
+        t += rng.choice([0.0, 0.0, 1 / 64, 0.125, 0.3125, 0.5])
+        q = rng.random()
+        if q < 0.6:
+            tl.append([t, rng.choice(["add_ns", "del_ns"]), rng.choice(["team-b", "team-c", "team-d", "team-a"])])
+        else:
+            tl.append([t, rng.choice(["add_res", "del_res"]), rng.choice(["widgets", "clusterthings", "kopfexamples"])])
+    t += 9.0
+    tl.append([t, "check"])
+    return {"seed": seed, "clusterwide": clusterwide, "patterns": ["team-*"], "handlers": handlers, "handler_sleep": sleep,
+            "settings": {"exit_timeout": rng.choice([2.0, 2.0, 1.0])},
+            "initial_resources": init_res, "initial_namespaces": init_ns, "timeline": tl, "end": t + 2.0, "rapid": True}
+
+
 SCOPE = {"kopfexamples": True, "widgets": True, "clusterthings": False}
 
 
@@ -734,6 +806,7 @@ def absorb(ctx: Ctx, res: dict, source: str, pending: dict) -> None:
                  sample={"scenario": case, "checkpoints": res["shape"]} if res["churn"] else None)
         for c in res["churn"]:
             ctx.count("operator_churn", c)
+        ctx.count("operator_runs", "rapid" if case.get("rapid") else "churn")
         ctx.count("operator_runs", "checkpoints", res["checkpoints"])
         ctx.count("operator_runs", "watch_requests", res["watch_requests"])
 
@@ -779,6 +852,11 @@ def run(ctx: Ctx) -> None:
     for i in range(n_oper):
         items.append(("operator", gen_operator(rng, base + i)))
         sources.append("generated")
+    n_rapid = ctx.budget(60, 1500)
+    for i in range(n_rapid):
+        items.append(("operator", gen_rapid(rng, base + i)))
+        sources.append("generated")
+    ctx.count("cases", "operator-rapid", n_rapid)
     ctx.count("cases", "stream", n_stream)
     ctx.count("cases", "adjust", n_adjust)
     ctx.count("cases", "operator", n_oper)
